@@ -44,6 +44,15 @@ func liability(v reflect.Value, typ string, depth int) *big.Int {
 	if depth > 6 || !v.IsValid() {
 		return sum
 	}
+	// versioned entities (entitywrapper.Wrapper keeps the concrete version in an
+	// unexported field): descend through the exported Entity() getter
+	if pv := v; pv.Kind() == reflect.Ptr && !pv.IsNil() {
+		if m := pv.MethodByName("Entity"); m.IsValid() && m.Type().NumIn() == 0 && m.Type().NumOut() == 1 {
+			if out := m.Call(nil)[0]; out.IsValid() && !((out.Kind() == reflect.Interface || out.Kind() == reflect.Ptr) && out.IsNil()) {
+				return liability(out, typ, depth+1)
+			}
+		}
+	}
 	for v.Kind() == reflect.Ptr || v.Kind() == reflect.Interface {
 		if v.IsNil() {
 			return sum
